@@ -945,6 +945,9 @@ def eval_walk(fn, start_block, atom_env=None, tree_env=None, limit=400, max_path
                 results.append((out, "stop"))
                 return
             seen = seen | {b}
+            if b not in fn.blocks:            # an edge without a target (the exit of a 'for (;;)' that has none)
+                results.append((out, "exit"))
+                return
             blk = fn.blocks[b]
             for i, ev in enumerate(blk.events):
                 out = out + [(b, i, ev)]
